@@ -1081,5 +1081,8 @@ func checkC14(c *CheckCtx) error {
 	c.sample(map[string]any{"document": jsonCorpus[14], "presentations": []string{respace(jsonCorpus[14])}})
 	scs = append(scs, jsonNearMiss(c)...)
 	scs = append(scs, hugeDoc()...)
+	// the stored text is the document in the format of the Config that wrote it: the same document
+	// through a Config with other format options is a different text (reported, or rewritten in update mode)
+	scs = append(scs, reformatted("json", "rj")...)
 	return c.runSeq(scs)
 }
